@@ -7,6 +7,8 @@ use bourse_de::{Env, MarketEnv};
 use rand::RngCore;
 use rand_xoshiro::rand_core::SeedableRng;
 use rand_xoshiro::Xoroshiro128StarStar;
+use crate::agentdrive::{Built, CountRng};
+use bourse_de::agents::{Agent, MarketAgent};
 use std::fmt::Write as _;
 use std::io::Write;
 use std::panic::{catch_unwind, AssertUnwindSafe};
@@ -62,9 +64,10 @@ fn created<T>(r: Result<T, OrderError>, id: impl Fn(T) -> usize) -> Outcome {
 pub trait Target {
     fn kind(&self) -> u8;
     fn assets(&self) -> usize;
-    fn apply(&mut self, op: &EOp, rng: &mut Xoroshiro128StarStar) -> Outcome;
+    fn apply(&mut self, op: &EOp, rng: &mut CountRng) -> Outcome;
+    fn update_agent(&mut self, _b: &mut Built, _rng: &mut CountRng) { panic!("agents need an environment") }
     /// canonical observation; Err(text) when two accessors of the same data disagree
-    fn observe(&self, rng: &Xoroshiro128StarStar) -> Result<String, String>;
+    fn observe(&self, rng: &CountRng) -> Result<String, String>;
     fn n_orders(&self, a: usize) -> usize;
     fn vol_of(&self, a: usize, id: usize) -> u32;
     fn status_of(&self, a: usize, id: usize) -> u8;
@@ -78,7 +81,7 @@ impl<const L: usize> Target for TEnv<L> {
     fn n_orders(&self, _a: usize) -> usize { self.0.get_orders().len() }
     fn vol_of(&self, _a: usize, id: usize) -> u32 { self.0.order(id).vol }
     fn status_of(&self, _a: usize, id: usize) -> u8 { self.0.order_status(id).into() }
-    fn apply(&mut self, op: &EOp, rng: &mut Xoroshiro128StarStar) -> Outcome {
+    fn apply(&mut self, op: &EOp, rng: &mut CountRng) -> Outcome {
         match op {
             EOp::Place { bid, vol, trader, price, .. } => created(self.0.place_order(side_of(*bid), *vol, *trader, *price), |i| i),
             EOp::Cancel(_, id) => { self.0.cancel_order(*id); Outcome::None }
@@ -89,7 +92,13 @@ impl<const L: usize> Target for TEnv<L> {
             _ => panic!("not an Env operation"),
         }
     }
-    fn observe(&self, rng: &Xoroshiro128StarStar) -> Result<String, String> {
+    fn update_agent(&mut self, b: &mut Built, rng: &mut CountRng) {
+        // the built-in single-asset agents are written against `Env` = `Env<10>`
+        let env: &mut dyn std::any::Any = &mut self.0;
+        let env = env.downcast_mut::<Env<10>>().expect("agents need Env<10>");
+        match b { Built::R(a) => a.update(env, rng), Built::N(a) => a.update(env, rng), Built::M(a) => a.update(env, rng), _ => panic!("market agent on Env") }
+    }
+    fn observe(&self, rng: &CountRng) -> Result<String, String> {
         let e = &self.0;
         let mut s = String::from("1");
         s.push_str(&framed(&observe(e.get_orderbook())));
@@ -105,7 +114,7 @@ impl<const L: usize> Target for TEnv<L> {
             push_series(&mut s, &h.volumes_at_levels.0[i]); push_series(&mut s, &h.orders_at_levels.0[i]);
             push_series(&mut s, &h.volumes_at_levels.1[i]); push_series(&mut s, &h.orders_at_levels.1[i]);
         }
-        let _ = write!(s, " {}", rng.clone().next_u64());
+        let _ = write!(s, " {}", rng.inner.clone().next_u64());
         // the other accessors of the same data must agree
         if *e.get_prices() != h.prices { return Err("get_prices differs from the level-2 history".into()); }
         if *e.get_volumes() != h.volumes { return Err("get_volumes differs from the level-2 history".into()); }
@@ -132,7 +141,7 @@ impl<const A: usize, const L: usize> Target for TMEnv<A, L> {
     fn n_orders(&self, a: usize) -> usize { self.0.get_orders(a).len() }
     fn vol_of(&self, a: usize, id: usize) -> u32 { self.0.order((a, id)).vol }
     fn status_of(&self, a: usize, id: usize) -> u8 { self.0.order_status((a, id)).into() }
-    fn apply(&mut self, op: &EOp, rng: &mut Xoroshiro128StarStar) -> Outcome {
+    fn apply(&mut self, op: &EOp, rng: &mut CountRng) -> Outcome {
         match op {
             EOp::Place { a, bid, vol, trader, price } => {
                 let want = *a;
@@ -149,7 +158,10 @@ impl<const A: usize, const L: usize> Target for TMEnv<A, L> {
             _ => panic!("not a MarketEnv operation"),
         }
     }
-    fn observe(&self, rng: &Xoroshiro128StarStar) -> Result<String, String> {
+    fn update_agent(&mut self, b: &mut Built, rng: &mut CountRng) {
+        match b { Built::RM(a) => a.update(&mut self.0, rng), Built::NM(a) => a.update(&mut self.0, rng), Built::MM(a) => a.update(&mut self.0, rng), _ => panic!("single-asset agent on MarketEnv") }
+    }
+    fn observe(&self, rng: &CountRng) -> Result<String, String> {
         let e = &self.0;
         let mut s = format!("{}", A);
         for a in 0..A { s.push_str(&framed(&observe(e.get_market().get_order_book(a)))); }
@@ -180,7 +192,7 @@ impl<const A: usize, const L: usize> Target for TMEnv<A, L> {
         }
         // all-asset queries of the market return each asset's own values in asset order
         market_queries_consistent(e.get_market())?;
-        let _ = write!(s, " {}", rng.clone().next_u64());
+        let _ = write!(s, " {}", rng.inner.clone().next_u64());
         Ok(s)
     }
 }
@@ -212,7 +224,7 @@ impl<const A: usize, const L: usize> Target for TMarket<A, L> {
     fn n_orders(&self, a: usize) -> usize { self.0.get_orders(a).len() }
     fn vol_of(&self, a: usize, id: usize) -> u32 { self.0.order((a, id)).vol }
     fn status_of(&self, a: usize, id: usize) -> u8 { self.0.order((a, id)).status.into() }
-    fn apply(&mut self, op: &EOp, _rng: &mut Xoroshiro128StarStar) -> Outcome {
+    fn apply(&mut self, op: &EOp, _rng: &mut CountRng) -> Outcome {
         use bourse_book::types::Event;
         let m = &mut self.0;
         match op {
@@ -241,11 +253,11 @@ impl<const A: usize, const L: usize> Target for TMarket<A, L> {
             _ => panic!("not a Market operation"),
         }
     }
-    fn observe(&self, rng: &Xoroshiro128StarStar) -> Result<String, String> {
+    fn observe(&self, rng: &CountRng) -> Result<String, String> {
         let mut s = format!("{}", A);
         for a in 0..A { s.push_str(&framed(&observe(self.0.get_order_book(a)))); }
         market_queries_consistent(&self.0)?;
-        let _ = write!(s, " {}", rng.clone().next_u64());
+        let _ = write!(s, " {}", rng.inner.clone().next_u64());
         Ok(s)
     }
 }
@@ -258,14 +270,14 @@ impl EStats { pub fn new() -> Self { EStats { scripts: 0, ops: 0, steps: 0, batc
 pub struct ERun<'a, W: Write> { pub w: &'a mut W, pub st: &'a mut EStats, pub dead: bool, pub text: String, batch: u64, step_size: u64, nontriv: bool }
 
 impl<'a, W: Write> ERun<'a, W> {
-    pub fn begin(w: &'a mut W, st: &'a mut EStats, id: u64, t: &dyn Target, l: usize, seed: u64, t0: u64, step: u64, trading: bool, ticks: &[u32], rng: &Xoroshiro128StarStar) -> Self {
+    pub fn begin(w: &'a mut W, st: &'a mut EStats, id: u64, t: &dyn Target, l: usize, seed: u64, t0: u64, step: u64, trading: bool, ticks: &[u32], rng: &CountRng) -> Self {
         let hdr = format!("M {} {} {} {} {} {} {} {} {}", id, t.kind(), l, seed, t0, step, trading as u8, ticks.len(),
             ticks.iter().map(|x| x.to_string()).collect::<Vec<_>>().join(" "));
         let obs = t.observe(rng).unwrap_or_else(|e| format!("0 0 {}", e.len()));
         let _ = writeln!(w, "{}\nS {}", hdr, obs);
         ERun { w, st, dead: false, text: hdr, batch: 0, step_size: step, nontriv: false }
     }
-    pub fn op(&mut self, t: &mut dyn Target, rng: &mut Xoroshiro128StarStar, op: &EOp) {
+    pub fn op(&mut self, t: &mut dyn Target, rng: &mut CountRng, op: &EOp) {
         if self.dead { return; }
         let enc = op.encode();
         let k: usize = enc.split(' ').next().unwrap().parse().unwrap();
@@ -290,6 +302,19 @@ impl<'a, W: Write> ERun<'a, W> {
             Err(_) => { let _ = writeln!(self.w, "O {}\nR 9", enc); self.dead = true; self.st.panics += 1; }
         }
     }
+    /// `[20 k]`: update agent k
+    pub fn agent(&mut self, t: &mut dyn Target, k: usize, b: &mut Built, rng: &mut CountRng) {
+        if self.dead { return; }
+        self.st.ops += 1;
+        if self.st.samples.len() < 3 { self.text.push_str(&format!(" | 20 {}", k)); }
+        let r = catch_unwind(AssertUnwindSafe(|| { t.update_agent(b, rng); t.observe(rng) }));
+        self.batch += 1_000_000;
+        match r {
+            Ok(Ok(obs)) => { let _ = writeln!(self.w, "O 20 {}\nR 0\nS {}", k, obs); }
+            Ok(Err(e)) => { let _ = writeln!(self.w, "O 20 {}\nR 0\nF {}", k, e); self.dead = true; }
+            Err(_) => { let _ = writeln!(self.w, "O 20 {}\nR 9", k); self.dead = true; self.st.panics += 1; }
+        }
+    }
     pub fn end(self, t: &dyn Target) {
         let _ = writeln!(self.w, "E");
         self.st.scripts += 1;
@@ -303,7 +328,7 @@ impl<'a, W: Write> ERun<'a, W> {
 pub struct EnvFamily { pub max_batch: u64, pub small_step: bool, pub toggles: bool, pub rounds: usize, pub asym: bool, pub distinct_batch: bool }
 
 /// A random environment script: rounds of submissions followed by a step.
-pub fn env_script<W: Write>(w: &mut W, st: &mut EStats, id: u64, t: &mut dyn Target, rng: &mut Xoroshiro128StarStar, g: &mut Sm,
+pub fn env_script<W: Write>(w: &mut W, st: &mut EStats, id: u64, t: &mut dyn Target, rng: &mut CountRng, g: &mut Sm,
                             l: usize, seed: u64, t0: u64, step: u64, trading: bool, ticks: &[u32], fam: &EnvFamily) {
     let a_n = t.assets();
     let mut run = ERun::begin(w, st, id, t, l, seed, t0, step, trading, ticks, rng);
@@ -348,7 +373,7 @@ pub fn env_script<W: Write>(w: &mut W, st: &mut EStats, id: u64, t: &mut dyn Tar
 }
 
 /// A random script of direct operations on a Market<A, L>.
-pub fn market_script<W: Write>(w: &mut W, st: &mut EStats, id: u64, t: &mut dyn Target, rng: &mut Xoroshiro128StarStar, g: &mut Sm,
+pub fn market_script<W: Write>(w: &mut W, st: &mut EStats, id: u64, t: &mut dyn Target, rng: &mut CountRng, g: &mut Sm,
                                l: usize, seed: u64, t0: u64, trading: bool, ticks: &[u32], len: usize) {
     let a_n = t.assets();
     let mut run = ERun::begin(w, st, id, t, l, seed, t0, 0, trading, ticks, rng);
@@ -379,5 +404,5 @@ pub fn market_script<W: Write>(w: &mut W, st: &mut EStats, id: u64, t: &mut dyn 
     run.end(t);
 }
 
-pub fn new_rng(seed: u64) -> Xoroshiro128StarStar { Xoroshiro128StarStar::seed_from_u64(seed) }
+pub fn new_rng(seed: u64) -> CountRng { CountRng { inner: Xoroshiro128StarStar::seed_from_u64(seed), n: 0 } }
 pub fn side(bid: bool) -> Side { side_of(bid) }
